@@ -214,6 +214,10 @@ package server
 //@   callsite GetTlsConfig#1 (c *tls.Config, e error) assert addr.HasTls.MatchString(old(st.Address.Scheme))                       :tls_only_for_tls_schemes
 
 //@ func (st *PacketServer) StartupPacket
+// C05: the key derived from the shared secret is a key the AES packet cipher accepts, derived with the same
+// parameters as the client's, so a protected endpoint starts and admits the clients holding the secret
+//@   property C05
+//@   callsite pbkdf2.Key#1 (arg2 int, arg3 int) require arg2 == 1024 && arg3 == 32                    :key_derivation_parameters_agree_with_the_clients
 //@   property C18
 //@   requires channelsWF(channels)
 //@   callsite Filter#1 (ups Channels, e error) assume G_snap_filterfailed() == (e != nil) "ghost snapshot: the allow-list filter reported an error"
